@@ -7,7 +7,7 @@ git -C /repo status --short | grep -q . && { echo "/repo not clean"; exit 2; }
 for d in seeded/*/; do
   tag=$(basename $d)
   prop=$(python3 -c "import json;print(json.load(open('$d/meta.json'))['breaks_property'])")
-  git -C /repo apply $d/patch.diff || { echo "$tag: patch does not apply"; continue; }
+  git -C /repo apply /verif/$d/patch.diff || { echo "$tag: patch does not apply"; continue; }
   out=$(tools/check $prop quick 2>&1)
   git -C /repo checkout -- .
   if echo "$out" | grep -q "VIOLATION property=$prop .*no-failing-input-found"; then echo "$tag ($prop): caught, no failing input";
